@@ -379,24 +379,61 @@ func main() {
 			}
 			// canonical line: what Go says about the file; the specification models must say the same
 			digest := "-"
-			switch t := dec.(type) {
-			case *image.NRGBA:
-				if o.Lossless {
-					digest = fnvHex(t.Pix[:w*h*4])
-				} else {
+			if o.Lossless {
+				t, ok := dec.(*image.NRGBA)
+				if !ok {
+					c.Violate("colour-model", "a lossless file did not decode to NRGBA", cs)
+					continue
+				}
+				digest = fnvHex(t.Pix[:w*h*4])
+			} else {
+				// Y, U, V planes: decode the VP8 chunk alone (simple container) so that Go hands
+				// out the planes themselves even when the file carries alpha
+				var vp8 []byte
+				for _, ch := range chunks {
+					if ch.id == "VP8 " {
+						vp8 = ch.payload
+					}
+				}
+				simple := append([]byte("RIFF\x00\x00\x00\x00WEBPVP8 \x00\x00\x00\x00"), vp8...)
+				if len(vp8)%2 == 1 {
+					simple = append(simple, 0)
+				}
+				binary.LittleEndian.PutUint32(simple[4:8], uint32(len(simple)-8))
+				binary.LittleEndian.PutUint32(simple[16:20], uint32(len(vp8)))
+				yim, yerr := webp.Decode(bytes.NewReader(simple))
+				ycc, ok := yim.(*image.YCbCr)
+				if yerr != nil || !ok {
+					c.Violate("vp8-chunk-alone", fmt.Sprintf("the VP8 chunk of the written file does not decode on its own: %v", yerr), cs)
+					continue
+				}
+				cw, chh := (w+1)/2, (h+1)/2
+				planes := make([]byte, 0, w*h+2*cw*chh)
+				for y := 0; y < h; y++ {
+					planes = append(planes, ycc.Y[y*ycc.YStride:y*ycc.YStride+w]...)
+				}
+				for y := 0; y < chh; y++ {
+					planes = append(planes, ycc.Cb[y*ycc.CStride:y*ycc.CStride+cw]...)
+				}
+				for y := 0; y < chh; y++ {
+					planes = append(planes, ycc.Cr[y*ycc.CStride:y*ycc.CStride+cw]...)
+				}
+				digest = fnvHex(planes)
+				switch t := dec.(type) {
+				case *image.NRGBA:
+					if !transparent {
+						c.Violate("colour-model", "an opaque lossy file decoded to NRGBA", cs)
+					}
 					a := make([]byte, w*h)
 					for k := range a {
 						a[k] = t.Pix[k*4+3]
 					}
-					digest = fnvHex(a)
+					digest += "/" + fnvHex(a)
+				case *image.YCbCr:
+					if transparent {
+						c.Violate("colour-model", "a transparent lossy file decoded to YCbCr", cs)
+					}
 				}
-			case *image.YCbCr:
-				if o.Lossless || transparent {
-					c.Violate("colour-model", "a lossless / transparent file decoded to YCbCr", cs)
-				}
-			}
-			if !o.Lossless && !transparent {
-				digest = "-"
 			}
 			line := fmt.Sprintf("1 %d %d %d %d %s", B2i(o.Lossless), w, h, B2i(transparent), digest)
 			c.Case("file "+hex.EncodeToString(file), line)
